@@ -8,7 +8,7 @@ use crate::bus;
 pub const NCHECK: usize = 14;
 pub const CHECK_NAMES: [&str; NCHECK] = [
   "C05: AF", "C05: BC", "C05: DE", "C05: HL", "C06: SP", "C06: PC", "C06: cycles", "C06: length", "C06: block end",
-  "C06: status", "C06: number of bus accesses", "C06: bus access order and content", "C05: register pairs stay within 16 bits",
+  "C06,C08: status", "C06: number of bus accesses", "C06: bus access order and content", "C05: register pairs stay within 16 bits",
   "C06: SP and PC stay within 16 bits" ];
 
 pub struct Outcome { pub ok: [bool; NCHECK], pub detail: [u32; 8] }
@@ -20,7 +20,7 @@ pub fn check_interp<S: Src>(mut bytes: [u8; 3], imm_free: [bool; 2], s: &mut S) 
   bus::setup(s);
   let c0 = Cpu { a: s.u8(), f: s.u8() & 0xf0, b: s.u8(), c: s.u8(), d: s.u8(), e: s.u8(), h: s.u8(), l: s.u8(), sp: s.u16(), pc: s.u16() };
   // call-site precondition (interpreter::run_next_op): the instruction lies inside one fetch slice
-  s.assume(c0.pc <= 0xfffc);
+  s.assume(c0.pc <= 0xfffc && (c0.pc & 0xfff) <= 0xffc);
   let mut ri = Registers { af: ((c0.a as u32) << 8) | c0.f as u32, bc: ((c0.b as u32) << 8) | c0.c as u32, de: ((c0.d as u32) << 8) | c0.e as u32,
                            hl: ((c0.h as u32) << 8) | c0.l as u32, sp: c0.sp as u32, ip: c0.pc as u32, cycles: 0 };
   let (op, len, cycles) = crate::decoder::decode(&bytes);
@@ -76,7 +76,7 @@ mod harnesses {
       match sel {
         0 => assert!($o.ok[0], "C05: AF"), 1 => assert!($o.ok[1], "C05: BC"), 2 => assert!($o.ok[2], "C05: DE"), 3 => assert!($o.ok[3], "C05: HL"),
         4 => assert!($o.ok[4], "C06: SP"), 5 => assert!($o.ok[5], "C06: PC"), 6 => assert!($o.ok[6], "C06: cycles"), 7 => assert!($o.ok[7], "C06: length"),
-        8 => assert!($o.ok[8], "C06: block end"), 9 => assert!($o.ok[9], "C06: status"), 10 => assert!($o.ok[10], "C06: number of bus accesses"),
+        8 => assert!($o.ok[8], "C06: block end"), 9 => assert!($o.ok[9], "C06,C08: status"), 10 => assert!($o.ok[10], "C06: number of bus accesses"),
         11 => assert!($o.ok[11], "C06: bus access order and content"), 12 => assert!($o.ok[12], "C05: register pairs stay within 16 bits"),
         13 => assert!($o.ok[13], "C06: SP and PC stay within 16 bits"),
         _ => { kani::cover!(true, "reachable"); },
